@@ -114,7 +114,6 @@ func runC08(ctx *Ctx) {
 	c08Projects(ctx, r)
 }
 
-
 // ---- textual inclusion: cut a document into files
 
 type cutter struct {
